@@ -1507,6 +1507,95 @@ example : (Heap.init none).WF ∧ (Heap.init none).ValidOps [.copy 0, .wrap 1, .
   refine ⟨fun k hk => by simp [Heap.init], ?_⟩
   simp [Heap.ValidOps, Heap.init, Heap.step, DeriveOp.handle]
 
+/-! ## one object, regimens chosen in turn, solved again for the same parameters and times -/
+
+/-- the solves of a history followed by more calls: the later calls start from the regimen in force -/
+theorem simTrace_append (r : Regimen) (h₁ h₂ : List SimCall) :
+    simTrace r (h₁ ++ h₂) = simTrace r h₁ ++ simTrace (simRegimen r h₁) h₂ := by
+  induction h₁ generalizing r with
+  | nil => simp [simTrace, simRegimen]
+  | cons c rest ih =>
+    cases c with
+    | set r' => simp [simTrace, simRegimen, ih]
+    | solve q => simp [simTrace, simRegimen, ih]
+
+theorem simRegimen_append (r : Regimen) (h₁ h₂ : List SimCall) :
+    simRegimen r (h₁ ++ h₂) = simRegimen (simRegimen r h₁) h₂ := by
+  induction h₁ generalizing r with
+  | nil => simp [simRegimen]
+  | cons c rest ih =>
+    cases c with
+    | set r' => simp [simRegimen, ih]
+    | solve q => simp [simRegimen, ih]
+
+/-- after ANY history on the object (earlier regimens, earlier solves — also for the very same request `q`),
+    a solve that follows the choice of `r'` is run with `r'` -/
+theorem C10_resimulate_last_set (r r' : Regimen) (hist : List SimCall) (q : Nat) :
+    simTrace r (hist ++ [.set r', .solve q]) = simTrace r hist ++ [(q, r')] := by
+  rw [simTrace_append]; simp [simTrace]
+
+/-- every solve is run with the regimen in force when it is called -/
+theorem C10_resimulate_in_force (r : Regimen) (hist : List SimCall) (q : Nat) :
+    simTrace r (hist ++ [.solve q]) = simTrace r hist ++ [(q, simRegimen r hist)] := by
+  rw [simTrace_append]; simp [simTrace]
+
+/-- solving does not change the regimen in force: dropping the solves from a history leaves it -/
+theorem C10_resimulate_solve_pure (r : Regimen) (hist : List SimCall) :
+    simRegimen r (hist.filter (fun c => match c with | .set _ => true | .solve _ => false)) =
+      simRegimen r hist := by
+  induction hist generalizing r with
+  | nil => rfl
+  | cons c rest ih =>
+    cases c with
+    | set r' => simp [simRegimen, ih]
+    | solve q => simp [simRegimen, ih]
+
+/-- the regimen in force is the last one chosen -/
+theorem C10_resimulate_regimen_last (r r' : Regimen) (hist : List SimCall) (qs : List Nat) :
+    simRegimen r (hist ++ .set r' :: qs.map .solve) = r' := by
+  rw [simRegimen_append]
+  simp only [simRegimen]
+  induction qs with
+  | nil => rfl
+  | cons q rest ih => simpa [simRegimen] using ih
+
+/-- a remembered solution that is dropped whenever a regimen is chosen cannot be told from solving
+    every time, provided what is remembered was solved with the regimen in force -/
+theorem C10_resimulate_memo_dropped (hist : List SimCall) :
+    ∀ (memo : Option (Nat × Regimen)) (r : Regimen), (∀ p, memo = some p → p.2 = r) →
+      simTraceMemoDropped memo r hist = simTrace r hist := by
+  induction hist with
+  | nil => intro memo r _; rfl
+  | cons c rest ih =>
+    intro memo r hm
+    cases c with
+    | set r' =>
+      simp only [simTraceMemoDropped, simTrace]
+      exact ih none r' (by intro p hp; cases hp)
+    | solve q =>
+      cases memo with
+      | none =>
+        simp only [simTraceMemoDropped, simTrace]
+        rw [ih (some (q, r)) r (by intro p hp; cases hp; rfl)]
+      | some p =>
+        obtain ⟨q', r0⟩ := p
+        have h0 : r0 = r := hm (q', r0) rfl
+        subst h0
+        simp only [simTraceMemoDropped, simTrace]
+        split
+        · rw [ih (some (q', r0)) r0 (by intro p hp; cases hp; rfl)]
+        · rw [ih (some (q, r0)) r0 (by intro p hp; cases hp; rfl)]
+
+/-- a remembered solution that survives the choice of a regimen: solve, choose `b`, solve the same
+    request again — the second solve is handed the trajectory of `a`; the property fails whenever `a ≠ b` -/
+theorem C10_resimulate_memo_counterexample (a b : Regimen) (q : Nat) :
+    simTraceMemo none a [.solve q, .set b, .solve q] = [(q, a), (q, a)] ∧
+    simTrace a [.solve q, .set b, .solve q] = [(q, a), (q, b)] := by
+  simp [simTraceMemo, simTrace]
+
+example : simTrace none [.solve 0, .set (some []), .solve 0, .solve 1, .set none, .solve 0] =
+    [(0, none), (0, some []), (1, some []), (0, none)] := by simp [simTrace]
+
 /-! ## non-vacuity -/
 
 example : regimenToEvent 2 (1/2) (1/4) (some 1) none = .ok ⟨8, 1/2, 1/4, 1, 0⟩ := by
